@@ -468,6 +468,8 @@ struct Shapes {
         mark_("taglist(non-entity)");
         { osmium::builder::TagListBuilder b{buf}; b.add_tag("a", "b"); }
         buf.commit();
+        mark_("node+user");  osmium::builder::add_node(buf, _id(55), _user("abcdefgh"));
+        mark_("changeset");  osmium::builder::add_changeset(buf, _cid(66), _tag("comment", "c"));
     }
     const osmium::memory::Item& item(int s) const { return buf.get<osmium::memory::Item>(off[s]); }
     size_t bytes(int s) const { return item(s).padded_size(); }
@@ -639,6 +641,7 @@ struct LongRun {
         tick("add_item");
     }
     void remove(size_t i) {   // i indexes m.hs
+        if (i >= m.hs.size()) { benum::note("HARNESS BUG: script removes handle #" + num(i) + " of " + num(m.hs.size()) + " in " + spec_base); return; }
         auto& e = m.hs[i];
         if (!e.live) return;
         begin_op();
@@ -682,7 +685,13 @@ static const std::vector<LongPattern>& long_patterns() {
         {"runs-of-5-of-8", [](LongRun& r, bool t) { for (int i = 0; i < (t ? 8 : 3); ++i) { r.fill(); r.remove_where([](size_t k, size_t) { return k % 8 < 5; }); for (int j = 0; j < 300; ++j) r.add(); } }},
         {"fifo-window", [](LongRun& r, bool t) { size_t oldest = 0; const uint64_t n = t ? 400000 : 70000; for (uint64_t i = 0; i < n; ++i) { r.add(); if (r.m.live > 3000) { while (!r.m.hs[oldest].live) ++oldest; r.remove(oldest); } } }},
         {"stack", [](LongRun& r, bool t) { const uint64_t n = t ? 200000 : 40000; for (uint64_t i = 0; i < n; ++i) { r.add(); r.add(); r.remove(r.m.hs.size() - 1); if (i % 3 == 0) r.remove(r.m.hs.size() - 2); } }},
-        {"threshold-9999-then-10000", [](LongRun& r, bool) { r.fill(); auto v = r.live_list(); for (size_t i = 0; i < 9999; ++i) r.remove(v[i]); r.add(); r.add(); r.fill(); v = r.live_list(); r.remove(v.back()); r.add(); for (int j = 0; j < 100; ++j) r.add(); }},
+        {"threshold-9999-then-10000", [](LongRun& r, bool) {
+            while (r.m.live < 12000) r.add();                       // enough handles whatever the item size (the buffer may have grown)
+            r.fill();
+            auto v = r.live_list(); for (size_t i = 0; i < 9999; ++i) r.remove(v[i]);
+            r.add(); r.add();                                       // 9999 removed: below the heuristic's minimum
+            r.fill(); v = r.live_list(); r.remove(v.back());        // 10000 removed and the buffer almost full
+            r.add(); for (int j = 0; j < 100; ++j) r.add(); }},
         {"explicit-gc-and-clear", [](LongRun& r, bool t) { for (int i = 0; i < (t ? 6 : 2); ++i) { r.fill(); size_t cnt = 0; auto v = r.live_list(); for (size_t k = 0; k < v.size(); ++k) if (k % 3 != 1) { r.remove(v[k]); if (++cnt % 2500 == 0) { r.gc(); r.add(); } } r.fill(); r.remove_where([](size_t k, size_t) { return k % 2 == 1; }); r.add(); if (i % 2 == 1) { r.clear(); for (int j = 0; j < 50; ++j) r.add(); } } }},
         {"grown-buffer", [](LongRun& r, bool t) { for (int j = 0; j < 30000; ++j) r.add(); for (int i = 0; i < (t ? 4 : 1); ++i) { r.fill(); r.remove_where([](size_t k, size_t) { return k % 2 == 0; }); for (int j = 0; j < 300; ++j) r.add(); } }},
         {"five-million-removed", [](LongRun& r, bool) { for (int j = 0; j < 5000300; ++j) r.add(); r.remove_where([](size_t k, size_t) { return k >= 150 && k < 5000152; }); r.add(); for (int j = 0; j < 100; ++j) r.add(); }},
@@ -733,7 +742,7 @@ template <class T, std::size_t CB>
 static Job dense_job(const char* tn, std::vector<T> ids, bool two, bool asan, int cost) {
     std::string al;
     for (T v : ids) al += (al.empty() ? "" : ",") + num(v);
-    std::string name = std::string("dense/") + tn + "/cb" + num(CB) + (two ? "/2reg/" : "/1reg/") + num(ids.size()) + "ids";
+    std::string name = std::string("dense/") + tn + "/cb" + num(CB) + (two ? "/2reg/" : "/1reg/") + num(ids.size()) + "ids-max" + num(*std::max_element(ids.begin(), ids.end()));
     std::string what = std::string("IdSetDense<") + tn + "," + num(CB) + "> " + (two ? "two registers" : "one register") + ", set/unset/check_and_set over ids {" + al + "} + clear/copy/assign" + (two ? "/swap/move" : "");
     return bfs_job(name, "idset-dense", asan, cost, std::make_shared<DenseSys<T, CB>>(ids, two), 0, what);
 }
@@ -764,34 +773,38 @@ static std::vector<Job> make_jobs(bool thorough) {
     using u32 = uint32_t; using u64 = uint64_t;
     const u32 M32 = 0xffffffffu; const u64 P32 = 1ull << 32;
     std::vector<Job> J;
+    // Within one tier no job's transition system contains another's (no alphabet of the same container type, chunk size and
+    // register count is a subset of another), so the per-job state counts add up without counting a state twice.
     // chunk_bits=1: 16 ids per chunk, chunk_bits=2: 32 ids per chunk (boundaries dense)
     J.push_back(dense_job<u32, 1>("u32", {0, 7, 8, 15, 16, 17, 31, 32, 4095, 4096}, false, true, 3));
-    J.push_back(dense_job<u64, 1>("u64", {0, 7, 8, 15, 16, 17, 31, 32, 65535, 65536}, false, true, 3));
     J.push_back(dense_job<u32, 2>("u32", {0, 7, 8, 31, 32, 33, 63, 64, 8191, 8192}, false, true, 3));
     J.push_back(dense_job<u64, 2>("u64", {0, 7, 8, 31, 32, 33, 63, 64, 8191, 8192}, false, true, 3));
-    J.push_back(dense_job<u32, 1>("u32", {0, 15, 16, 31, 32}, true, true, 3));
-    J.push_back(dense_job<u64, 2>("u64", {0, 31, 32, 63, 64}, true, true, 3));
     // chunk_bits=13: 65536 ids per chunk, the end of the uint32 id range is reachable with a 64Ki-entry chunk table
     J.push_back(dense_job<u32, 13>("u32", {0, 7, 65535, 65536, 1u << 31, M32 - 65536, M32 - 65535, M32 - 16, M32}, false, false, 8));
-    J.push_back(dense_job<u64, 13>("u64", {0, 65535, 65536, P32 - 1, P32, P32 + 1}, false, false, 2));
-    // default chunk_bits=22: 2^25 ids per 4 MiB chunk
-    J.push_back(dense_job<u32, 22>("u32", {0, (1u << 25) - 1, 1u << 25, M32}, false, false, 10));
-    J.push_back(dense_job<u64, 22>("u64", {(1u << 25) - 1, P32 - 1, P32}, false, false, 8));
-    if (thorough) {
-        J.push_back(dense_job<u32, 1>("u32", {0, 7, 8, 15, 16, 17, 31, 32}, true, false, 40));
-        J.push_back(dense_job<u64, 2>("u64", {0, 7, 31, 32, 33, 63, 64}, true, false, 30));
-        J.push_back(dense_job<u64, 1>("u64", {0, 15, 16, 31, 32, 1048575, 1048576}, false, false, 20));
-        J.push_back(dense_job<u64, 13>("u64", {0, 7, 65535, 65536, P32 - 1, P32, P32 + 1, 1ull << 36}, false, false, 30));
-        J.push_back(dense_job<u32, 13>("u32", {0, M32 - 65536, M32 - 65535, M32}, true, false, 30));
+    if (!thorough) {
+        J.push_back(dense_job<u64, 1>("u64", {0, 7, 8, 15, 16, 17, 31, 32, 65535, 65536}, false, true, 3));
+        J.push_back(dense_job<u32, 1>("u32", {0, 15, 16, 31, 32}, true, true, 3));
+        J.push_back(dense_job<u64, 2>("u64", {0, 31, 32, 63, 64}, true, true, 3));
+        J.push_back(dense_job<u64, 13>("u64", {0, 65535, 65536, P32 - 1, P32, P32 + 1}, false, false, 2));
+        // default chunk_bits=22: 2^25 ids per 4 MiB chunk
+        J.push_back(dense_job<u32, 22>("u32", {0, (1u << 25) - 1, 1u << 25, M32}, false, false, 10));
+        J.push_back(dense_job<u64, 22>("u64", {(1u << 25) - 1, P32 - 1, P32}, false, false, 8));
+    } else {
+        J.push_back(dense_job<u64, 1>("u64", {0, 7, 8, 15, 16, 17, 31, 32, 1048575, 1048576}, false, true, 8));
+        J.push_back(dense_job<u32, 1>("u32", {0, 7, 8, 15, 16, 17, 31, 32}, true, false, 12));
+        J.push_back(dense_job<u64, 2>("u64", {0, 7, 31, 32, 33, 63, 64}, true, true, 6));
+        J.push_back(dense_job<u64, 13>("u64", {0, 7, 65535, 65536, P32 - 1, P32, P32 + 1, 1ull << 36}, false, false, 80));
+        J.push_back(dense_job<u32, 13>("u32", {0, M32 - 65536, M32 - 65535, M32}, true, false, 25));
         J.push_back(dense_job<u32, 22>("u32", {0, 7, (1u << 25) - 1, 1u << 25, 1u << 31, M32 - (1u << 25) + 1, M32}, false, false, 100));
-        J.push_back(dense_job<u64, 22>("u64", {0, 1u << 25, P32 - 1, P32, P32 + 1, 1ull << 40}, false, false, 100));
+        J.push_back(dense_job<u64, 22>("u64", {(1u << 25) - 1, P32 - 1, P32, P32 + 1, 1ull << 40}, false, false, 100));
     }
-    J.push_back(small_job<u32>("u32", {0, 1, 5, M32 - 1, M32}, thorough ? 8 : 6, thorough ? 30 : 2));
-    J.push_back(small_job<u64>("u64", {0, 1, P32 - 1, P32, ~0ull}, thorough ? 8 : 6, thorough ? 30 : 2));
+    J.push_back(small_job<u32>("u32", {0, 1, 5, M32 - 1, M32}, thorough ? 8 : 6, thorough ? 3 : 2));
+    J.push_back(small_job<u64>("u64", {0, 1, P32 - 1, P32, ~0ull}, thorough ? 8 : 6, thorough ? 3 : 2));
     J.push_back(bfs_job("nwr/dense-u32-cb1", "nwr-array", true, 1, std::make_shared<NwrSys>(), 0, "nwr_array<IdSetDense<uint32_t,1>> set/unset over ids {0,16} and clear on each of node/way/relation"));
-    J.push_back(stash_job({0, 1, 2}, thorough ? 9 : 7, thorough ? 60 : 5));
-    J.push_back(stash_job({0, 4}, thorough ? 8 : 6, thorough ? 20 : 2, false));      // with a stand-alone TagList item (not an OSMEntity); plain build only
-    J.push_back(stash_job({3, 2, 0, 1}, thorough ? 8 : 6, thorough ? 40 : 3));
+    // disjoint shape sets (only the empty stash is common to the three systems)
+    J.push_back(stash_job({0, 1, 2}, thorough ? 9 : 7, thorough ? 20 : 5));
+    J.push_back(stash_job({3, 5}, thorough ? 10 : 8, thorough ? 20 : 3));
+    J.push_back(stash_job({6, 4}, thorough ? 9 : 7, thorough ? 5 : 2, false));      // with a stand-alone TagList item (not an OSMEntity); plain build only
     const size_t np = long_patterns().size();
     for (size_t p = 0; p < np; ++p) {
         const bool big = std::string(long_patterns()[p].name) == "five-million-removed";
@@ -809,7 +822,9 @@ static std::vector<Job> make_jobs(bool thorough) {
 // RelationsMapStash
 struct RelCfg {
     std::vector<uint64_t> ids; unsigned maxlen; std::vector<uint64_t> probes;
-    RelCfg(std::vector<uint64_t> i, unsigned m) : ids(std::move(i)), maxlen(m) {
+    std::vector<bool> in_other; unsigned other_len = 0;      // histories of <= other_len adds over these ids belong to another configuration of the tier
+    RelCfg(std::vector<uint64_t> i, unsigned m, std::vector<uint64_t> other = {}, unsigned olen = 0) : ids(std::move(i)), maxlen(m), other_len(olen) {
+        for (uint64_t v : ids) in_other.push_back(std::find(other.begin(), other.end(), v) != other.end());
         std::set<uint64_t> ps(ids.begin(), ids.end());      // looked-up ids: the alphabet, neighbours, the same low 32 bits with other high bits
         for (uint64_t v : ids) { ps.insert(v + 1); ps.insert(v - 1); ps.insert(v ^ (1ull << 32)); ps.insert(v + (1ull << 33)); }
         ps.insert(0); ps.insert(3); ps.insert(~0ull);
@@ -905,11 +920,13 @@ static void rel_history(const RelCfg& cfg, const std::string& job, const std::ve
 static std::vector<std::pair<std::string, RelCfg>> rel_cfgs(bool thorough) {
     const uint64_t P32 = 1ull << 32;
     std::vector<std::pair<std::string, RelCfg>> v;
-    v.emplace_back("relmap/5ids/len4", RelCfg({1, 2, P32 - 1, P32, P32 + 1}, 4));
-    v.emplace_back("relmap/7ids/len3", RelCfg({0, 1, 2, P32 - 1, P32, P32 + 1, ~0ull}, 3));
-    if (thorough) {
-        v.emplace_back("relmap/5ids/len5", RelCfg({1, 2, P32 - 1, P32, P32 + 1}, 5));
-        v.emplace_back("relmap/7ids/len4", RelCfg({0, 1, 2, P32 - 1, P32, P32 + 1, ~0ull}, 4));
+    const std::vector<uint64_t> five = {1, 2, P32 - 1, P32, P32 + 1}, seven = {0, 1, 2, P32 - 1, P32, P32 + 1, ~0ull};
+    if (!thorough) {
+        v.emplace_back("relmap/5ids/len4", RelCfg(five, 4));
+        v.emplace_back("relmap/7ids/len3", RelCfg(seven, 3, five, 4));
+    } else {
+        v.emplace_back("relmap/5ids/len5", RelCfg(five, 5));
+        v.emplace_back("relmap/7ids/len4", RelCfg(seven, 4, five, 5));
     }
     return v;
 }
@@ -928,12 +945,14 @@ static void part_relmap(const Args& a) {
                 const uint64_t total = benum::ipow(P, len);
                 for (uint64_t r = 0; r < total; ++r) {
                     uint64_t x = r;
-                    for (unsigned i = 0; i < len; ++i) { h[i] = static_cast<uint8_t>(x % P); x /= P; }
+                    bool covered = len <= cfg.other_len;
+                    for (unsigned i = 0; i < len; ++i) { h[i] = static_cast<uint8_t>(x % P); x /= P; if (!cfg.in_other[h[i] / cfg.ids.size()] || !cfg.in_other[h[i] % cfg.ids.size()]) covered = false; }
+                    if (covered && cfg.other_len) continue;          // explored by the other configuration of this tier
                     if ((++n & 4095) == 0) { cell->beats = cell->beats + 1; if (a.expired()) { complete = false; break; } }
                     rel_history(cfg, job, h, V, &seen, &a);
                 }
             }
-            benum::bound(job + ": every sequence of <= " + num(cfg.maxlen) + " add(member, parent) over " + num(cfg.ids.size()) + " ids, states partitioned by hash, x 3 index builders", complete);
+            benum::bound(job + ": every sequence of <= " + num(cfg.maxlen) + " add(member, parent) over " + num(cfg.ids.size()) + " ids" + (cfg.other_len ? " (minus those of the 5-id configuration)" : "") + ", states partitioned by hash, x 3 index builders", complete);
         });
         if (!ok) benum::bound(job + ": aborted by a crash", false);
     }
